@@ -15,7 +15,7 @@
 
    [valid_at v] is the same predicate with the requirements a later migration establishes left out:
      before 13.2  any language;   before 13.5  the template may still sit in a `templating` object;
-     before 13.6  no length limit on result and category names (an over-long result name must not be blank).
+     before 13.6  no length limit on result and category names.
    The old readers are not in the repository: this is the reading of "valid at an older version" the theorems use. *)
 From Coq Require Import List NArith ZArith Bool String.
 From Verif Require Import lib.Json gen.MigrationTable model.Migrate.
@@ -29,12 +29,9 @@ Definition result_name_char (c : N) : bool :=
   ((97 <=? c) && (c <=? 122)) || ((65 <=? c) && (c <=? 90)) || ((48 <=? c) && (c <=? 57))
   || (c =? 45) || (c =? 95) || (c =? 9) || (c =? 10) || (c =? 12) || (c =? 13) || (c =? 32).
 
-Definition has_nonspace (x : str) : bool := existsb (fun c => negb (is_space c)) x.
-
-(* limited: the 64 character limit of 13.6 applies; otherwise an over-long name must have something to keep *)
+(* limited: the 64 character limit of 13.6 applies *)
 Definition result_name_ok (limited : bool) (x : str) : bool :=
-  nonempty x && forallb result_name_char x
-  && (if limited then rune_len x <=? max_result_name else (utf8_len x <=? max_result_name) || has_nonspace x).
+  nonempty x && forallb result_name_char x && (negb limited || (rune_len x <=? max_result_name)).
 
 (* ^.{1,36}$ : no newline *)
 Definition category_chars_ok (x : str) : bool := forallb (fun c => negb (c =? 10)) x.
